@@ -1048,7 +1048,7 @@ func main() {
 	b := boundsFor(tier)
 	rule := fmt.Sprintf("for each of %d offline built-in extractors x each placement (paths.go, validated against FileRequired; a placement is either the file handed to Extract or a SECONDARY file the extractor opens through input.FS — os-release, chrome message.json, go.sum, -r includes, local parent pom.xml, containerd metadata.db/status — next to a healthy primary file) x each seed of that placement (every testdata fixture of the extractor resp. of the secondary format, inline minimal valid documents, %d minimal documents incl. empty/whitespace/null/lone quote/lone key; identical contents merged): "+
 		"every mutant of operator set v1 — identity; truncate at every offset (seeds <= %d B; larger: every 512-byte boundary); delete / duplicate / swap-adjacent line i (seeds <= %d B); "+
-		"replace byte i by each of 16 structural tokens at every offset (seeds <= %d B) or at line starts (seeds <= %d B); delete / duplicate byte i (seeds <= %d B); replace each value token or balanced bracket group by null (text seeds <= %d B); truncate line i at every column with the rest of the file kept, and drop the first k bytes of line i (text seeds <= %d B, lines <= 200 B); insert each of 4 case-length-changing sequences (invalid byte, U+023A, U+212A, U+0250) at file start, line starts, around ':' '=' and at word boundaries (text seeds <= %d B) and replace line i by such a sequence + its first k bytes (text seeds <= %d B); set each byte of the first 1 KiB to 00/ff (binary seeds, thorough=%v); long line: the last token of each of the first 4 and last 2 lines padded until the line is 4095/4096/4097/65535/65536/65537/1048576 bytes long, with the rest of the file kept and with the file ending there without a newline (text seeds <= %d B); structure-aware: every size/offset/count field of the ELF, PE and Mach-O header tables (file header, <= 64 section headers, <= 32 program headers / load commands, PE data directories) set to each of {0, 1, v-1, v+1, file length, 2^31-1, 2^31, 2^32-1, 2^32, 2^48, 2^63-1, 2^64-1}; for seeds above the every-offset bound, output-guided edits: around each of <= 64 occurrences of the names/versions Extract reported for the unmutated seed, set the bytes at the edges of the occurrence, of its printable run and before that run to 00/01/space/ff and delete the occurrence — "+
+		"replace byte i by each of 16 structural tokens at every offset (seeds <= %d B) or at line starts (seeds <= %d B); delete / duplicate byte i (seeds <= %d B); replace each value token or balanced bracket group by null (text seeds <= %d B); truncate line i at every column with the rest of the file kept, and drop the first k bytes of line i (text seeds <= %d B, lines <= 200 B); insert each of 4 case-length-changing sequences (invalid byte, U+023A, U+212A, U+0250) at file start, line starts, around ':' '=' and at word boundaries (text seeds <= %d B) and replace line i by such a sequence + its first k bytes (text seeds <= %d B); set each byte of the first 1 KiB to 00/ff (binary seeds, thorough=%v); every string value := empty / one blank / one character, every {...} := {}, [...] := [], every number := 0 / -1, on the quoted-string level so that JSONC/YAML/TOML are covered (text seeds <= %d B); Unicode spaces U+00A0 U+2003 U+3000 U+0085 U+2028 inserted at value starts/ends, before '(' and in place of blank runs (text seeds <= %d B); long line: the last token of each of the first 4 and last 2 lines padded until the line is 4095/4096/4097/65535/65536/65537/1048576 bytes long, with the rest of the file kept and with the file ending there without a newline (text seeds <= %d B); structure-aware: every size/offset/count field of the ELF, PE and Mach-O header tables (file header, <= 64 section headers, <= 32 program headers / load commands, PE data directories) set to each of {0, 1, v-1, v+1, file length, 2^31-1, 2^31, 2^32-1, 2^32, 2^48, 2^63-1, 2^64-1}; for seeds above the every-offset bound, output-guided edits: around each of <= 64 occurrences of the names/versions Extract reported for the unmutated seed, set the bytes at the edges of the occurrence, of its printable run and before that run to 00/01/space/ff and delete the occurrence — "+
 		"is placed and Extract is called with a complete ScanInput. CONTAINER-AWARE: for the zip-reading extractors (java/archive, python/wheelegg .egg) every zip fixture (<= 64 KiB quick / 256 KiB thorough) and two archives built from scratch (jar: MANIFEST.MF + pom.properties; egg: PKG-INFO) are unpacked, the same operators are applied to each inner text entry (first 16; for the first 4 also to every minimal document and to every loose fixture of the same base name put in its place) and the archive is re-packed with the same entry order and methods; plus archive-level operators drop / duplicate / empty entry i. "+
 		"RESOURCE CAP: java/archive is additionally run as a second instance with Config.MaxOpenedBytes = 256 KiB over the small jar fixtures and 7 built nested-archive shapes (2/8/400 inner *.jar entries that are not archives, healthy inner jars, a mix, three levels of nesting); one Extract may allocate at most 32 x that budget + 64 x file size + 8 MiB (honouring the cap allocates <= 12.5 x budget), else `java/archive:opened-bytes-budget`. "+
 		"Oracle: Extract must return (no panic, no process death, no stack overflow, no RLIMIT_AS 8 GiB abort, answer within the %v watchdog, which covers the parsing of secondary files too; os/rpm runs with its own Timeout knob set to 8 s quick / 30 s thorough). "+
@@ -1056,7 +1056,7 @@ func main() {
 		"Containment: for each extractor and each error class (first 48 chars of the error text, paths/quoted text/digits removed; first %d classes per extractor in enumeration order) the first mutant of that class is scanned by scalibr.Scanner.Scan next to a healthy requirements.txt (dpkg status for python/requirements): "+
 		"the scan completes, the healthy extractor's packages and status equal those of the scan without the bad file, and the failing extractor's status is Failed or PartiallySucceeded. "+
 		"Engine confinement, independent of what real extractors return today: a harmless extractor returning each of 18 error classes (nil, custom, wrapped/bare context.DeadlineExceeded and context.Canceled while the scan's context is alive, os.ErrDeadlineExceeded, io.EOF/ErrUnexpectedEOF, fs.ErrPermission/ErrNotExist/SkipDir/SkipAll, the memory-limit sentinel, joined errors, errors together with packages) x bad file before/after/on both sides of a good file in the walk x both plugin-list orders is scanned next to a recording extractor and two healthy files of the failing extractor itself (one visited before, one after the bad file): Scan returns, the recording extractor's package and SUCCEEDED status are present, the failing extractor's packages for its two healthy files are present (confinement is per FILE) and it has a status (FAILED/PARTIALLY_SUCCEEDED iff it returned an error); the same with the real java/archive (MaxOpenedBytes 256 KiB), an over-budget jar and two healthy jars.",
-		len(names), len(minimalDocs), b.truncAll, b.lineOps, b.sigmaAll, b.sigmaLine, b.byteOps, b.nullify, b.lineCut, b.caseIns, b.caseLine, b.binFF, b.longLine, c.watchdog, maxClassesPerExtractor)
+		len(names), len(minimalDocs), b.truncAll, b.lineOps, b.sigmaAll, b.sigmaLine, b.byteOps, b.nullify, b.lineCut, b.caseIns, b.caseLine, b.binFF, b.emptify, b.uniSpace, b.longLine, c.watchdog, maxClassesPerExtractor)
 	r.Finish(rule, true)
 }
 
